@@ -4,6 +4,7 @@ CONSTANTS
   Home <- GHome
   InitSeq <- GInitSeq
   InitTok <- GInitTok
+  InitRaw = {"pad"}
   HasLF0 <- GLF
   HasAT0 <- GAT
   Slack <- GSlack
